@@ -357,3 +357,115 @@ Proof. intros I L Hl Hrem Hin. unfold step. pose proof (step_raw_inv s (EComplet
   rewrite Ho in Ho'. injection Ho' as <-. assert (Hk' : ckd cl' = ckd cl) by (apply kind_type_inj; congruence).
   unfold call_outcome in *. rewrite Hk' in *. unfold Rc. rewrite Hla, Hip.
   destruct (ckd cl); [congruence| |]; cbn [fst snd] in *; (split; [exact Hres|]); (split; [apply aget_adel_same | eauto]). Qed.
+
+(* ---------- the invariant between the tracker state and the monitor's bookkeeping ---------- *)
+Definition heal_ctx (s : st) (x : sp) (d0 : list (N * N)) : Prop :=
+  exists s0 ord s1 evs, Inv s0 /\ LInv false s0 /\ quiescent s0 = true /\ step s0 (ERecoverAll ord) = (s1, ROk) /\
+    Forall ok_complete evs /\ s = run s1 evs /\ d0 = dmobs s0 /\ pinset s0 = pinset s /\ (forall c, In c (sp_unt x) -> Uc s0 c).
+
+Record MI (s : st) (x : sp) : Prop := {
+  mi_inv : Inv s; mi_linv : LInv false s; mi_np : (0 < npin s)%nat; mi_D : dispatched s;
+  mi_pinset : sp_pinset x = pinset s; mi_last : sp_last x = last s;
+  mi_hist_p : forall c p, aget c (pinset s) = Some p -> In p (sp_hist x);
+  mi_hist_t : forall c o, aget c (table s) = Some o -> otyp o = OPin -> In (opin o) (sp_hist x) /\ pcid (opin o) = c;
+  mi_unt : forall c, In c (sp_unt x) -> Uc s c;
+  mi_remok : forall c, In c (sp_remok x) -> Rc s c;
+  mi_dm : sp_prev_dm x = dmobs s; mi_inf : sp_prev_inf x = infobs s; mi_q : sp_prev_q x = quiescent s;
+  mi_heal : forall d0, sp_heal x = Some d0 -> heal_ctx s x d0 }.
+
+Lemma in_remove_c c c' l : In c (remove_c c' l) <-> In c l /\ c <> c'.
+Proof. unfold remove_c. rewrite filter_In, negb_true_iff, N.eqb_neq. tauto. Qed.
+
+Lemma sp_event_unt x e o c : In c (sp_unt (sp_event x e o)) ->
+  (exists c', e = EUntrack c' /\ c' = c) \/ (In c (sp_unt x) /\ ~ resets e c).
+Proof. destruct e as [p|c0|c0|ord|c0 f|c0 m]; cbn [sp_event sp_unt resets]; intros H.
+  - apply in_remove_c in H. right. split; [tauto|]. intros E. apply H. auto.
+  - destruct H as [<-|H]; [left; eauto|]. apply in_remove_c in H. right. split; [tauto|]. intros E. apply H. auto.
+  - right. tauto. - right. tauto. - right. tauto.
+  - apply in_remove_c in H. right. split; [tauto|]. intros E. apply H. auto. Qed.
+
+Lemma sp_event_hist x e o : sp_hist (sp_event x e o) = match e with ETrack p => p :: sp_hist x | _ => sp_hist x end.
+Proof. destruct e; reflexivity. Qed.
+
+Section OneStep.
+Variables (n : N) (fs : list N) (s : st) (x : sp) (e : event).
+Hypothesis M : MI s x.
+Let s' := fst (step s e).
+Let r := snd (step s e).
+Let o := model_obs n s' r fs.
+Let x' := sp_event x e o.
+
+Lemma os_inv : Inv s'. Proof. apply step_inv, M. Qed.
+Lemma os_linv : LInv false s'. Proof. apply step_linv; [apply M | apply M | discriminate]. Qed.
+Lemma os_q : o_quiescent o = quiescent s'.
+Proof. apply quiescence_agrees; [apply os_inv | apply step_dispatched|]. unfold s'. rewrite step_npin. apply M. Qed.
+
+Lemma os_fields : sp_pinset x' = pinset s' /\ sp_last x' = last s'.
+Proof. destruct (step_fields s e (mi_inv _ _ M)) as [A B]. fold s' in A, B. rewrite A, B, <- (mi_pinset _ _ M), <- (mi_last _ _ M).
+  unfold x'. destruct e; cbn [sp_event sp_pinset sp_last]; auto. Qed.
+
+Lemma os_hist_sub p : In p (sp_hist x) -> In p (sp_hist x').
+Proof. unfold x'. rewrite sp_event_hist. destruct e; auto. intros H. now right. Qed.
+
+Lemma os_hist_p c p : aget c (pinset s') = Some p -> In p (sp_hist x').
+Proof. destruct (step_fields s e (mi_inv _ _ M)) as [A _]. fold s' in A. rewrite A. unfold x'. rewrite sp_event_hist.
+  destruct e as [p0|c0|c0|ord|c0 f|c0 m]; try apply (mi_hist_p _ _ M).
+  - destruct (N.eq_dec c (pcid p0)) as [->|Hn].
+    + rewrite aget_aput_same. intros H. injection H as <-. now left.
+    + rewrite aget_aput_other by auto. intros H. right. now apply (mi_hist_p _ _ M c).
+  - destruct (N.eq_dec c c0) as [->|Hn]; [rewrite aget_adel_same; discriminate|]. rewrite aget_adel_other by auto. apply (mi_hist_p _ _ M). Qed.
+
+Lemma os_hist_t c o' : aget c (table s') = Some o' -> otyp o' = OPin -> In (opin o') (sp_hist x') /\ pcid (opin o') = c.
+Proof. intros H T.
+  assert (F : from s (fun p => In p (sp_hist x')) c o').
+  { apply (step_from s e); auto; [apply M| |].
+    - intros c0 p Hp. split; [apply (li_keyed _ _ (mi_linv _ _ M) c0 p Hp)|]. apply os_hist_sub. apply (mi_hist_p _ _ M c0 p Hp).
+    - intros p ->. unfold x'. rewrite sp_event_hist. now left. }
+  destruct F as [(o0 & Ho0 & T0 & Q0)|[F|F]]; [|exact F|congruence].
+  rewrite Q0. destruct (mi_hist_t _ _ M c o0 Ho0) as [A B]; [congruence|]. split; auto. now apply os_hist_sub. Qed.
+
+Lemma os_unt c : In c (sp_unt x') -> Uc s' c.
+Proof. intros H. apply sp_event_unt in H. destruct H as [(c' & -> & ->)|[H Hr]].
+  - apply Uc_untrack, M.
+  - apply Uc_step; [apply M | apply M | apply (mi_unt _ _ M c H) | exact Hr]. Qed.
+
+Lemma os_remok c : In c (sp_remok x') -> Rc s' c.
+Proof. unfold x'. intros H.
+  assert (Hold : In c (sp_remok x) -> ~ resets e c -> Rc s' c) by (intros A B; apply Rc_step; [apply M | apply M | apply (mi_remok _ _ M c A) | exact B]).
+  destruct e as [p|c0|c0|ord|c0 f|c0 m]; cbn [sp_event sp_remok resets] in *.
+  - apply in_remove_c in H. apply Hold; [tauto|]. intros E. apply H. auto.
+  - apply in_remove_c in H. apply Hold; [tauto|]. intros E. apply H. auto.
+  - apply Hold; auto. - apply Hold; auto.
+  - destruct (aget c0 (sp_last x)) as [[p|]|] eqn:Hl; try (apply Hold; auto; fail).
+    destruct (premote p && negb f && existsb (fun q => let '(c', k, _, _) := q in N.eqb c' c0 && N.eqb k 1) (sp_prev_inf x)) eqn:Cnd; [|apply Hold; auto].
+    destruct H as [<-|H]; [|apply in_remove_c in H; apply Hold; tauto].
+    rewrite !andb_true_iff in Cnd. destruct Cnd as [[C1 C2] C3]. apply negb_true_iff in C2. subst f.
+    apply existsb_exists in C3. destruct C3 as [[[[c' k] d] t] [Hin Hk]]. apply andb_true_iff in Hk. destruct Hk as [K1 K2].
+    apply N.eqb_eq in K1, K2. subst c' k. rewrite (mi_inf _ _ M) in Hin. rewrite (mi_last _ _ M) in Hl.
+    apply (Rc_new s c0 p d t); auto; apply M.
+  - apply in_remove_c in H. apply Hold; [tauto|]. intros E. apply H. auto. Qed.
+
+Lemma os_heal d0 : sp_heal x' = Some d0 -> heal_ctx s' x' d0.
+Proof. unfold x'. destruct (step_fields s e (mi_inv _ _ M)) as [Hps _]. fold s' in Hps.
+  destruct e as [p|c0|c0|ord|c0 f|c0 m]; cbn [sp_event sp_heal]; try discriminate.
+  - destruct (sp_prev_q x && N.eqb (o_ret o) 0) eqn:C; [|discriminate]. intros H. injection H as <-.
+    apply andb_true_iff in C. destruct C as [C1 C2]. rewrite (mi_q _ _ M) in C1.
+    assert (Hr : r = ROk). { unfold o, model_obs, o_ret in C2. destruct r; [reflexivity|discriminate]. }
+    exists s, ord, s', []. split; [apply M|]. split; [apply M|]. split; [exact C1|].
+    split; [unfold s', r in *; rewrite <- Hr; apply surjective_pairing|]. split; [constructor|]. split; [reflexivity|].
+    split; [apply mi_dm, M|]. split; [symmetry; exact Hps|].
+    intros c Hc. cbn [sp_unt] in Hc. now apply (mi_unt _ _ M).
+  - destruct f; [discriminate|]. intros H. destruct (mi_heal _ _ M d0 H) as (s0 & ord & s1 & evs & A1 & A2 & A3 & A4 & A5 & A6 & A7 & A8 & A9).
+    exists s0, ord, s1, (evs ++ [EComplete c0 false]). split; [exact A1|]. split; [exact A2|]. split; [exact A3|]. split; [exact A4|].
+    split; [apply Forall_app; split; auto; constructor; [exists c0; reflexivity|constructor]|].
+    split; [unfold s'; rewrite A6; symmetry; apply run_snoc|]. split; [exact A7|]. split; [rewrite A8; symmetry; exact Hps|exact A9]. Qed.
+
+Theorem MI_step : MI s' x'.
+Proof. constructor.
+  - apply os_inv. - apply os_linv. - unfold s'. rewrite step_npin. apply M. - apply step_dispatched.
+  - apply os_fields. - apply os_fields. - apply os_hist_p. - apply os_hist_t. - apply os_unt. - apply os_remok.
+  - unfold x'. destruct e; reflexivity.
+  - unfold x'. destruct e; reflexivity.
+  - unfold x'. transitivity (o_quiescent o); [destruct e; reflexivity | apply os_q].
+  - apply os_heal. Qed.
+End OneStep.
